@@ -439,6 +439,142 @@ def waiter_proceeds(ctx, idm, cov):
         cov.add(case, klass="waiter-behind-killed-holder")
 
 
+# ------------------------------------------------------------------------------ the high-level requests
+def highlevel_kills(ctx, cov):
+    """TupimageTerminal.assign_id(image) (allocating) and assign_id(image, force_id=X) (force-setting) — the requests a user
+    makes — killed before every SQL statement they execute.  Each is ONE operation of the property: the reopened database is
+    the one before the request or the one after it, nothing in between.  Runs inside a pty (TupimageTerminal needs a tty);
+    the killed process is a grandchild."""
+    work = ctx.work
+    seed = ctx.rng.randrange(2**30)
+
+    def in_sandbox():
+        common.scrub_process_env()
+        os.environ["HOME"] = work
+        os.environ["XDG_STATE_HOME"] = os.path.join(work, "state")
+        os.environ["XDG_CONFIG_HOME"] = os.path.join(work, "config")
+        import tupimage
+        import tupimage.id_manager as idm_
+        from PIL import Image
+        from c04 import Tokens
+        undo = tc.install(idm_)
+        out = []
+        try:
+            imgs = []
+            for i, col in enumerate([(200, 10, 10), (10, 200, 10), (10, 10, 200)]):
+                p = os.path.join(work, f"c12-hl-{i}.png")
+                Image.new("RGB", (5 + i, 4), col).save(p)
+                os.utime(p, ns=(1_700_000_000_000_000_000, 1_700_000_000_000_000_000))
+                imgs.append(p)
+            X = 13
+
+            def mk_term(path):
+                return tupimage.TupimageTerminal(out_command=common.RecStream(), out_display=common.RecStream(), in_response=open("/dev/tty", "rb", buffering=0),
+                                                 id_database=path, terminal_id="hl-term", session_id="hl", config="DEFAULT", id_space="8bit", id_subspace="10:20",
+                                                 redetect_terminal=False)
+
+            scenarios = [
+                ("assign_id/new", [], lambda t: t.assign_id(imgs[0], cols=2, rows=1)),
+                ("assign_id/hit", [("assign", 0)], lambda t: t.assign_id(imgs[0], cols=2, rows=1)),
+                ("force_id/free-id", [], lambda t: t.assign_id(imgs[1], cols=2, rows=1, force_id=X)),
+                ("force_id/id-holds-another-image", [("force", 0)], lambda t: t.assign_id(imgs[1], cols=2, rows=1, force_id=X)),
+                ("force_id/id-holds-another-image-uploaded-to-two-terminals", [("force", 0), ("mark", "T1"), ("mark", "T2")], lambda t: t.assign_id(imgs[1], cols=2, rows=1, force_id=X)),
+                ("force_id/same-image-again", [("force", 1), ("mark", "T1")], lambda t: t.assign_id(imgs[1], cols=2, rows=1, force_id=X)),
+            ]
+            for name, init, request in scenarios:
+                def prepare(path):
+                    for suffix in ("", "-wal", "-shm"):
+                        try:
+                            os.remove(path + suffix)
+                        except OSError:
+                            pass
+                    ag0 = tc.Agent(0, seed + 1, None)       # the same random draws in every preparation
+                    ag0.free_run = True
+                    tc._tls.agent = ag0
+                    t = mk_term(path)
+                    for what, arg in init:
+                        if what == "assign":
+                            t.assign_id(imgs[arg], cols=2, rows=1)
+                        elif what == "force":
+                            t.assign_id(imgs[arg], cols=2, rows=1, force_id=X)
+                        else:
+                            t.id_manager.mark_uploaded(X, arg, size=123)
+                    t.id_manager.close()
+
+                def dump(path):
+                    toks = Tokens()
+                    conn = tc._real_sqlite3.connect(path)
+                    try:
+                        rows = []
+                        for sp in idm_.IDSpace.all_values():
+                            rows += [("ids", sp.namespace_name(), r[0], r[1]) for r in conn.execute(f"SELECT id, description FROM {sp.namespace_name()} ORDER BY id")]
+                        rows += [("up",) + tuple(r) for r in conn.execute("SELECT id, terminal, description, size FROM upload ORDER BY id, terminal")]
+                        return rows
+                    finally:
+                        conn.close()
+
+                def run(path, kill_at):
+                    def body():
+                        counter = {"n": 0}
+
+                        def on_point(ag, info):
+                            if counter["n"] == kill_at:
+                                os.kill(os.getpid(), signal.SIGKILL)
+                                time.sleep(10)
+                            counter["n"] += 1
+                        ag = tc.Agent(0, seed, on_point)
+                        tc._tls.agent = ag
+                        ag.op_kind = "open"
+                        ag.free_run = True
+                        t = mk_term(path)
+                        ag.free_run = False
+                        ag.begin_op(0, "hl", 0)
+                        request(t)
+                        return {"points": counter["n"]}
+                    return _child(body)
+
+                base = os.path.join(work, "c12-hl.db")
+                prepare(base)
+                before = dump(base)
+                status, payload = run(base, None)
+                if payload is None or "points" not in payload:
+                    out.append({"name": name, "error": f"uninterrupted run failed: {status} {payload}"})
+                    continue
+                after = dump(base)
+                n = payload["points"]
+                bad = []
+                for k in range(n + 1):
+                    prepare(base)
+                    status, _ = run(base, k)
+                    try:
+                        got = dump(base)
+                    except Exception as e:  # noqa
+                        bad.append({"kill_before": k, "what": f"the database does not open: {e}"})
+                        continue
+                    if got != before and got != after:
+                        bad.append({"kill_before": k, "what": "partial effect", "missing_vs_before": [r for r in before if r not in got][:4], "missing_vs_after": [r for r in after if r not in got][:4]})
+                out.append({"name": name, "points": n, "bad": bad, "changed": before != after})
+        finally:
+            undo()
+        return out
+
+    r = common.in_pty(in_sandbox, timeout=600)
+    if "ok" not in r:
+        ctx.corr_breaks.append({"what": "high-level kill enumeration failed in the pty sandbox", "error": {k: v for k, v in r.items() if k != "tty"}})
+        return
+    for rec in r["ok"]:
+        if rec.get("error"):
+            ctx.corr_breaks.append({"what": "high-level kill enumeration: " + rec["error"], "case": {"name": rec["name"]}})
+            continue
+        for k in range(rec["points"] + 1):
+            cov.add({"request": rec["name"], "kill_before": k}, klass="highlevel/" + rec["name"].split("/")[0])
+        for b in rec["bad"][:2]:
+            ctx.violations.append({"signature": {"class": "partial-effect", "op": "highlevel:" + rec["name"]},
+                                   "what": f"TupimageTerminal {rec['name']}: after a kill before its statement {b['kill_before']} of {rec['points']} the database is neither the one before nor the one after the request ({b['what']}; "
+                                           f"rows of the old state missing: {b.get('missing_vs_before')}; rows of the new state missing: {b.get('missing_vs_after')})",
+                                   "case": {"case": {"name": "highlevel"}, "request": rec["name"], "kill_before": b["kill_before"]}})
+
+
 def run(ctx, model):
     cov = common.Coverage("case = one operation on one prepared database killed (SIGKILL) before one statement/commit, or the constructor killed before one of its statements, or a waiter behind a killed lock holder; non-trivial = all; each judged by reopen / integrity / all-or-nothing / row well-formedness / another-process-continues and compared with the model's Kill semantics")
     if model is None:
@@ -454,6 +590,7 @@ def run(ctx, model):
         waiter_proceeds(ctx, idm, cov)
     finally:
         undo()
+    highlevel_kills(ctx, cov)
     replies = model.batch([t[0] for t in todo] + [r for r, _ in oreqs])
     for (req, got, case, c, k, n), rep in zip(todo, replies):
         if rep.startswith("ERR"):
@@ -473,6 +610,12 @@ def replay(ctx, model, rec):
     case = rec["case"]
     tup = common.import_impl()
     idm = tup.id_manager
+    if case["case"].get("name") == "highlevel":
+        before = len(ctx.violations)
+        highlevel_kills(ctx, common.Coverage("replay"))
+        new = ctx.violations[before:]
+        del ctx.violations[before:]
+        return {"violates": bool(new), "found": [v["what"][:200] for v in new]}
     if case["case"].get("name") in ("constructor", "waiter-behind-killed-holder"):
         undo = tc.install(idm)
         before = len(ctx.violations)
